@@ -31,6 +31,7 @@ META = dict(
 )
 META["text"] += " (R7 = C06.R4) the consumer of the threshold keeps, position by position, exactly the cards whose sample number is within the contest's threshold."
 META["text"] += ' R1 finds the walk sequence by role and requires it to be all indices in ascending sample-number order (a partial sort is refuted); the reported sample may be the sorted set of selected cards; R6 also: the drawn sample is enumerated as given (order-preserving copies accepted).'
+META["text"] += ' R4 also: consistent_sampling and assign_sample_nums keep no state between calls (no cached order). R6 also: both samples are sorted on every call (no early exit, no conditional sort).'
 
 
 def card_expr(fn):
